@@ -239,9 +239,10 @@ def wait_accept():
 
 def two_waiters_one_step():
     """two invocations of p (nw=2) wait at the same time, each under its own waiter id and with its own requirement
-    (the answer's k must be the input's k)."""
+    (the answer's k must be the input's k).  x sends at its very end: re-executing an in-flight x after a resume must not
+    send the inputs a second time (the waiter ids are derived from them)."""
     return {"timeout": None, "steps": {
-        "x": {"accepts": ["Start"], "nw": 1, "body": [{"op": "send", "ty": "A", "n": 2}, G, {"op": "none"}]},
+        "x": {"accepts": ["Start"], "nw": 1, "body": [G, {"op": "send", "ty": "A", "n": 2}, {"op": "none"}]},
         "p": {"accepts": ["A"], "nw": 2, "returns": ["Stop"],
               "body": [G, {"op": "wait", "ty": "Resp", "wid": "per_input", "timeout": None, "reqs": "input", "wev": False}, G, {"op": "none"}]},
     }}
